@@ -522,10 +522,13 @@ mod store {
         let hist2 = hist.clone();
         let cur_op = std::sync::Arc::new(std::sync::Mutex::new(String::new()));
         let cur2 = cur_op.clone();
+        let fault_seen = std::sync::Arc::new(std::sync::atomic::AtomicBool::new(false));
+        let fault2 = fault_seen.clone();
         std::panic::set_hook(Box::new(move |info| {
             let op = cur2.lock().map(|g| g.clone()).unwrap_or_default();
-            println!("{{\"found\": true, \"kind\": \"panic\", \"props\": \"C01,C04\", \"history\": {:?}, \"observed\": {:?}, \"expected\": \"every operation returns a result\"}}",
-                     hist2, format!("{} panicked: {}", op, info));
+            let props = if fault2.load(std::sync::atomic::Ordering::SeqCst) { "C01,C04,C20" } else { "C01,C04" };
+            println!("{{\"found\": true, \"kind\": \"panic\", \"props\": \"{}\", \"history\": {}, \"observed\": {}, \"expected\": \"every operation returns a result\"}}",
+                     props, crate::js(&hist2), crate::js(&format!("{} panicked: {}", op, info)));
             std::process::exit(0);
         }));
         for (i, op) in ops.iter().enumerate() {
@@ -552,10 +555,10 @@ mod store {
                 match p[0] { "set" => { model.insert(p[1].into(), p[2].into()); alt.remove(p[1]); continue; } "del" => { model.remove(p[1]); alt.remove(p[1]); continue; } "merge" => { had_merge = true; continue; } _ => {} }
             }
             match p[0] {
-                "set" => { match h.set(b(p[1]), b(p[2])) { Ok(()) => { model.insert(p[1].into(), p[2].into()); alt.remove(p[1]); } Err(e) => { println!("# op {} `{}` failed: {}", i, op, e); alt.insert(p[1].into(), Some(p[2].into())); had_fault = true; } } }
+                "set" => { match h.set(b(p[1]), b(p[2])) { Ok(()) => { model.insert(p[1].into(), p[2].into()); alt.remove(p[1]); } Err(e) => { println!("# op {} `{}` failed: {}", i, op, e); alt.insert(p[1].into(), Some(p[2].into())); had_fault = true; fault_seen.store(true, std::sync::atomic::Ordering::SeqCst); } } }
                 "del" => { match h.del(b(p[1])) {
                     Ok(was) => { let exp = model.remove(p[1]).is_some(); let unsure = alt.remove(p[1]).is_some(); if was != exp && !unsure { report(label, rp, &hist, format!("op {} `{}` returned {}", i, op, was), &format!("{}", exp)); } }
-                    Err(e) => { println!("# op {} `{}` failed: {}", i, op, e); alt.insert(p[1].into(), None); had_fault = true; } } }
+                    Err(e) => { println!("# op {} `{}` failed: {}", i, op, e); alt.insert(p[1].into(), None); had_fault = true; fault_seen.store(true, std::sync::atomic::Ordering::SeqCst); } } }
                 "get" => { let got = h.get(b(p[1])).map(|o| o.map(|v| String::from_utf8_lossy(&v).to_string())); let exp = model.get(p[1]).cloned();
                     match got { Ok(g) if g == exp => {}, Ok(g) if alt.get(p[1]) == Some(&g) => {}, other => report(label, rp, &hist, format!("op {} `{}` returned {:?}; files {:?}", i, op, other, files(dir.path())), &format!("{:?}", exp)) } }
                 "merge" => { had_merge = true;
@@ -576,13 +579,16 @@ mod store {
                     match mk(dir.path()).open() { Ok(k) => kv = Some(k), Err(e) => report(label, if had_fault { "C02,C20" } else { "C02" }, &hist, format!("op {} reopen failed: {}; files {:?}", i, e, files(dir.path())), "the directory can be opened") } }
                 "precreate-data" => { std::fs::File::create(dir.path().join(format!("{}.bitcask.data", p[1]))).unwrap(); }
                 "precreate-hint" => { std::fs::File::create(dir.path().join(format!("{}.bitcask.hint", p[1]))).unwrap(); }
+                "remove-data" => { let _ = std::fs::remove_file(dir.path().join(format!("{}.bitcask.data", p[1]))); }
+                "remove-hint" => { let _ = std::fs::remove_file(dir.path().join(format!("{}.bitcask.hint", p[1]))); }
                 "checkall" => { for (k, v) in model.iter() { if alt.contains_key(k) { continue; } let got = h.get(b(k)).map(|o| o.map(|v| String::from_utf8_lossy(&v).to_string()));
                     match got { Ok(Some(g)) if &g == v => {}, other => report(label, rp, &hist, format!("op {} checkall: key {} reads {:?}; files {:?}", i, k, other, files(dir.path())), v) } } }
                 "checkstats" => { let (kd, st) = h.verif_dump();
                     // ground truth from the key directory: live count per file
                     let mut live: BTreeMap<u64, u64> = BTreeMap::new();
                     for (_, f, _, _) in kd.iter() { *live.entry(*f).or_default() += 1; }
-                    for (f, l, _d, _b) in st.iter() { let exp = live.get(f).cloned().unwrap_or(0); if *l != exp { report(label, "C19", &hist, format!("op {} file {} live_keys {} (stats {:?})", i, f, l, st), &format!("{}", exp)); } }
+                    // after a failed operation only "never under-count" is required (the record of the failed operation may be counted)
+                    for (f, l, _d, _b) in st.iter() { let exp = live.get(f).cloned().unwrap_or(0); if (had_fault && *l < exp) || (!had_fault && *l != exp) { report(label, "C19", &hist, format!("op {} file {} live_keys {} (stats {:?})", i, f, l, st), &format!("{}", exp)); } }
                     for (f, n) in live.iter() { if !st.iter().any(|(g, _, _, _)| g == f) { report(label, "C19", &hist, format!("op {} file {} holds {} live keys but has no statistics entry (stats {:?})", i, f, n, st), "an entry with that live count"); } } }
                 _ => panic!("bad op {}", op),
             }
@@ -600,6 +606,9 @@ mod store {
             (0, "all", "set a 1; set b 2; merge; merge; checkall; set c 3; merge; reopen; checkall; checkstats"),
             (30, "dead", "set a 1; set b 2; set a 3; merge; checkall; reopen; checkall; checkstats"),
             (0, "all", "precreate-data 1; set a 1; set b 2; get a; get b; reopen; get a; get b"),
+            // a rollover that fails (the next file already exists), the obstacle is removed, the operation is retried (C20)
+            (0, "all", "set a 1; precreate-data 2; del a; remove-data 2; !del a; checkstats; get a; !set a 2; checkstats; get a; reopen; checkall; checkstats"),
+            (0, "all", "set a 1; set b 1; precreate-data 3; set a 2; remove-data 3; !set a 3; checkstats; !del a; checkstats; !del b; checkstats; get a; get b"),
             // partial merge: an old file keeps a stale record of `a` (1 of 3 dead: not selected) while the file holding its live record is merged
             (64, "frag50", "set a 1; set b 1; set c 1; set a 2; set x 1; set x 2; set x 3; merge; checkall; reopen; checkall; get a; merge; reopen; checkall"),
             (64, "frag50", "set a 1; set b 1; set c 1; set x 0; set a 2; set x 1; set x 2; set y 1; set y 2; merge; checkall; reopen; checkall; reopen; checkall"),
@@ -649,7 +658,7 @@ mod store {
             let v: Vec<&str> = ops.iter().map(|s| s.as_str()).collect();
             run_history(max, mode, &v, "history");
         }
-        println!("{{\"found\": false, \"searched\": \"9 curated, 40 pseudo-random histories with full merges and 24 with partial merges (no deletes), (set/del/get/merge/reopen over 3 keys, max_file_size in 0,40,100,1M) against the map model incl. live-key accounting\"}}");
+        println!("{{\"found\": false, \"searched\": \"11 curated (two with a failing rollover), 40 pseudo-random histories with full merges and 24 with partial merges (no deletes), (set/del/get/merge/reopen over 3 keys, max_file_size in 0,40,100,1M) against the map model incl. live-key accounting\"}}");
     }
 
     /// D11: an append that fails mid-entry (RLIMIT_FSIZE makes write(2) fail with EFBIG after a partial write)
